@@ -36,7 +36,7 @@ MANIFEST = {
              "trailing period/space replacement, 1..99 clash counter; is_uppercase/to_lowercase as parameters; FnMut closure indexed by call number). Theorems for ALL valid names of any length, "
              "all closures: the result is the first accepted of 100 explicit candidates and was accepted by the last call (never a rejected candidate; panic iff 100 rejections; the truncate calls never "
              "hit the inside of a character; back-off <= 3 steps); single path component without illegal/control characters, no leading period, no trailing period/space, affixes present, stem not a "
-             "device name; length <= 255 when the first candidate is accepted or the suffix is empty and <= 257 always. Two statements are false on the tree and recorded with kernel-checked "
+             "device name; length <= 255 when the first candidate is accepted or the suffix is empty and <= 257 always. MAX_LEN, NUMBER_LEN, both lists, the counter range and the wrappers' affixes are re-extracted from src/util.rs on every run and tied to the model and to the spec tables by decide-theorems (source_*). Two statements are false on the tree and recorded with kernel-checked "
              "counterexamples: the 257-byte .glif name after a clash, and the 'glyphs.' prefix eaten for layer names made of periods/spaces. Tied to the code by driving the public function on "
              "an exhaustive small-alphabet space plus boundary-directed random names and comparing result and every closure call with the compiled model; the specification predicates are "
              "evaluated on norad's own output. Container-level uniqueness/stability is claimed by the container check on top of fileName_accepted."),
